@@ -145,6 +145,9 @@ def run(mod, tier, seed, replay=None):
             for ci, c in enumerate(sh):
                 stats["evaluations"] += 1
                 dist["ops"][c.get("op", "?")] = dist["ops"].get(c.get("op", "?"), 0) + 1
+                if c.get("cli") or c.get("cliRuns"):
+                    # cases that went through the real coca command (cmd/*.go) in a fresh process
+                    dist["through_cli"] = dist.get("through_cli", 0) + 1
                 sz = len(json.dumps(c))
                 bucket = "<300B" if sz < 300 else "<1KB" if sz < 1000 else "<3KB" if sz < 3000 else "<10KB" if sz < 10000 else ">=10KB"
                 dist["case_size"][bucket] = dist["case_size"].get(bucket, 0) + 1
